@@ -325,7 +325,14 @@ where
 
 pub trait GLWESub
 where
-    Self: ModuleN + VecZnxSub + VecZnxCopy + VecZnxNegate + VecZnxZero + VecZnxSubAssign + VecZnxSubNegateAssign,
+    Self: ModuleN
+        + VecZnxSub
+        + VecZnxCopy
+        + VecZnxNegate
+        + VecZnxNegateAssign
+        + VecZnxZero
+        + VecZnxSubAssign
+        + VecZnxSubNegateAssign,
 {
     fn glwe_sub<R, A, B>(&self, res: &mut R, a: &A, b: &B)
     where
@@ -408,6 +415,10 @@ where
 
         for i in 0..(a.rank() + 1).into() {
             self.vec_znx_sub_negate_assign(res.data_mut(), i, a.data(), i);
+        }
+        // res = a - res: the columns `a` does not have (rank-0 operand) are 0 - res
+        for i in (a.rank() + 1).into()..(res.rank() + 1).into() {
+            self.vec_znx_negate_assign(res.data_mut(), i);
         }
     }
 }
